@@ -130,5 +130,5 @@ Proof. exact klce_fenchel_young_proof. Qed.
 (* entrywise equality at the gradients 1 - g/x  and  ln(x/g) *)
 Theorem kl_equality_at_gradient : forall g x : R, 0 < g -> 0 < x ->
   kl1 g x + klc1 g (1 - g / x) = x * (1 - g / x) /\ kce1 g x + kcec1 g (ln (x / g)) = x * ln (x / g).
-Proof. intros g x Hg Hx. split; [apply kl1_eq | apply kce1_eq]; assumption. Qed.
+Proof. exact kl_equality_at_gradient_proof. Qed.
 Print Assumptions kl_fenchel_young.
